@@ -165,7 +165,8 @@ impl<F: Fam> Ctx<F> {
                 let s = (*s & 1) as usize;
                 let st = self.st(s);
                 let l = st.l();
-                if l > 0 {
+                // also with an old table that was emptied but not freed: the main table alone is aligned
+                if l > 0 || st.old_present() {
                     let need = st.hook.main_len + l + (l + self.r - 1) / self.r;
                     // capacities hashbrown can have: 3, 7, then 7/8 of a power of two
                     let mut b = 3usize;
